@@ -31,7 +31,8 @@ echo "demo with change: rc=$rb" >> "$out"; tail -15 /tmp/cw/$name.$$.b | sed 's/
 rm "$wt/$pdir/zz_demo_test.go"
 rs=1
 for try in 1 2 3 4 5 6 7 8; do
-  (cd "$wt/$mod" && timeout 900 go test -vet=off -count=1 -p 1 ./... ) > /tmp/cw/$name.$$.s 2>&1; rs=$?
+  # private network namespace: test_grpc binds TCP port 50051, other runs on this host collide
+  (cd "$wt/$mod" && timeout 900 unshare -n sh -c 'ip link set lo up; go test -vet=off -count=1 -p 1 ./...' ) > /tmp/cw/$name.$$.s 2>&1; rs=$?
   if [ "$mod" = spanner_prober ]; then
      # the pinned tree fails TestValidFlags/invalid_options; accept exactly that failure
      if ! grep -- '--- FAIL' /tmp/cw/$name.$$.s | grep -v 'TestValidFlags' | grep -q .; then rs=0; fi
